@@ -34,7 +34,9 @@ Definition ex_ev (m q : string) : lookup :=
   else if String.eqb m "pkg.mod" then
     (if String.eqb q "K" then LFound (OClass 16) else if String.eqb q "K.Inner" then LFound (OClass 17)
      else if String.eqb q "plain" then LFound (OFunc 0)
-     else if String.eqb q "wrapped" then LFound (OWrapper (OWrapper (OFunc 1)))
+     else if String.eqb q "wrapped" then LFound (OWrapper (Some "wrapped") (OWrapper (Some "wrapped") (OFunc 1)))
+     else if String.eqb q "alias" then LFound (OFunc 0)                       (* alias = plain: another function's name *)
+     else if String.eqb q "shadowed" then LFound (OOther (Some "deco.<locals>.w"))
      else if String.eqb q "K.cm" then LFound (OBound (OFunc 2))
      else if String.eqb q "K.ro" then LFound (OProperty (Some (OFunc 3)) false false)
      else if String.eqb q "K.rw" then LFound (OProperty (Some (OFunc 4)) true false)
